@@ -52,6 +52,8 @@ PARTS = {
       T('intkey-probeval-two4', 'base', 'prop=C05', 'keys=int', 'vals=probe', 'two=1', 'nkeys=4', 'nvals=1'),
       T('probekey-intval-two4-asan', 'asan', 'prop=C05', 'keys=probe', 'vals=int', 'two=1', 'nkeys=4', 'nvals=1'),
       T('probe10', 'base', 'prop=C05', 'keys=probe', 'vals=probe', 'nkeys=10', 'nvals=1'),
+      # the last operation of the history in the state key (lib/vf_bfs.h suffix=K)
+      T('probe6-sfx1', 'base', 'prop=C05', 'keys=probe', 'vals=probe', 'nkeys=6', 'nvals=1', 'suffix=1'), T('probe4x2-sfx1', 'base', 'prop=C05', 'keys=probe', 'vals=probe', 'nkeys=4', 'nvals=2', 'alias=1', 'suffix=1'),
       T('probe6x2', 'base', 'prop=C05', 'keys=probe', 'vals=probe', 'nkeys=6', 'nvals=2', 'alias=1'),
       T('probe-two6', 'base', 'prop=C05', 'keys=probe', 'vals=probe', 'two=1', 'nkeys=6', 'nvals=1'),
       T('probe-two3x2', 'base', 'prop=C05', 'keys=probe', 'vals=probe', 'two=1', 'nkeys=3', 'nvals=2'),
@@ -78,6 +80,8 @@ PARTS = {
       T('intkey-probeval-two6', 'base', 'prop=C05', 'keys=int', 'vals=probe', 'two=1', 'nkeys=6', 'nvals=1'),
       T('probekey-intval-two5-asan', 'asan', 'prop=C05', 'keys=probe', 'vals=int', 'two=1', 'nkeys=5', 'nvals=1'),
       T('probe11', 'base', 'prop=C05', 'keys=probe', 'vals=probe', 'nkeys=11', 'nvals=1'),
+      # the last operation of the history in the state key (lib/vf_bfs.h suffix=K)
+      T('probe8-sfx1', 'base', 'prop=C05', 'keys=probe', 'vals=probe', 'nkeys=8', 'nvals=1', 'suffix=1'), T('probe5x2-sfx1', 'base', 'prop=C05', 'keys=probe', 'vals=probe', 'nkeys=5', 'nvals=2', 'alias=1', 'suffix=1'), T('probe5-sfx2', 'base', 'prop=C05', 'keys=probe', 'vals=probe', 'nkeys=5', 'nvals=1', 'suffix=2'),
       T('probe8x2', 'base', 'prop=C05', 'keys=probe', 'vals=probe', 'nkeys=8', 'nvals=2', 'alias=1'),
       T('probe-two7', 'base', 'prop=C05', 'keys=probe', 'vals=probe', 'two=1', 'nkeys=7', 'nvals=1'),
       T('probe-two4x2', 'base', 'prop=C05', 'keys=probe', 'vals=probe', 'two=1', 'nkeys=4', 'nvals=2'),
@@ -147,6 +151,8 @@ PARTS = {
     'quick': [
       # refusing element type: the element's own assign raises in the middle of set
       T('fail-int-picky6x2', 'base', 'prop=C12', 'keys=int', 'vals=picky', 'nkeys=6', 'nvals=2'),
+      # the last operation of the history in the state key (lib/vf_bfs.h suffix=K)
+      T('fail-int-picky4x2-sfx1', 'base', 'prop=C12', 'keys=int', 'vals=picky', 'nkeys=4', 'nvals=2', 'suffix=1'),
       T('fail-picky-int6x2', 'base', 'prop=C12', 'keys=picky', 'vals=int', 'nkeys=6', 'nvals=2'),
       T('fail-picky-picky5x2-asan', 'asan', 'prop=C12', 'keys=picky', 'vals=picky', 'nkeys=5', 'nvals=2'),
       T('fail-int-picky8', 'base', 'prop=C12', 'keys=int', 'vals=picky', 'nkeys=8', 'nvals=1'),
